@@ -159,6 +159,18 @@ CLAIMS = {
         "(Hessdiag = n=2 pipeline on the line function, exact below 2 + method_order). Tie: the four real-step difference functions on "
         "dyadic polynomials = Rat model exactly. Partial: Ridout eq. 10 (complex) and the bicomplex formula are covered by the search only.",
    technique="Lean 4 proof (symmetry by construction, exactness on quadratics by ring identities) + exact correspondence on dyadic data"),
+ 'C09': dict(
+   text="Lean 4 state-machine model of what persists between calls: the global rule cache (association list, only write = (key, compute key)), "
+        "step generators (immutable options + _state overwritten at the start of every call), object configurations; operations construct / "
+        "call / set n, order, method / share generator / clear cache. Theorems: lookupOrCompute_correct and reachable_inv (cache invariant in "
+        "every reachable state), call_is_pure and history_independent (after ANY finite operation sequence a call returns the pure function of "
+        "(current configuration, generator options, point): refinement to a one-line spec), interleaved_lookup_correct (a thread whose cache read "
+        "and write are separated by arbitrary writes of other threads still obtains compute key and leaves a correct cache), "
+        "set_restore_identity. Tie: random operation sequences on the real library; sorted(FD_RULES) and the generator _state after every "
+        "operation equal the model's trace (keys computed with the generated LogRule logic). Search: every call result bit for bit against a "
+        "separate interpreter with empty cache and new objects; 16 threads on disjoint objects vs sequential. Partial: GIL-granularity model of "
+        "threads; numpy/LAPACK internals outside.",
+   technique="Lean 4 invariant + refinement proof over all operation sequences / interleavings + exact trace correspondence"),
 }
 
 checks = []
